@@ -152,7 +152,7 @@ def replay_path(g, path, via_node):
 def random_history(rng, depth, via_node):
     impl = Impl(via_node)
     evs = []
-    keys = [(rng.randrange(0, 6), rng.randrange(0, 3), rng.choice([0, 1, 65, 127, 131, 193, 255])) for _ in range(6)]
+    keys = [(rng.randrange(0, 6), rng.randrange(0, 3), rng.choice([0, 1, 65, 127, 131, 193, 255])) for _ in range(rng.choice([6, 12]))]
     for _ in range(depth):
         x = rng.random()
         if x < 0.5:
@@ -168,6 +168,21 @@ def random_history(rng, depth, via_node):
         else:
             ev = apply_label(impl, "Toggle", [])
         evs.append(ev)
+    return evs
+
+
+def fill_toggle(via_node, mx, k, toggles, how):
+    """structured family beyond the exhaustive bound: raise max_queue_size, fill with k distinct frames, toggle, drain"""
+    impl = Impl(via_node)
+    evs = [apply_label(impl, "SetMax", [mx])]
+    for i in range(k):
+        f = {"from": 1 + i % 5, "id": i, "type": (0, 65)[i % 2], "body": [i, 255 - i]}
+        evs.append(apply_label(impl, "Enq", [f, how]))
+    for _ in range(toggles):
+        evs.append(apply_label(impl, "Toggle", []))
+        evs.append(apply_label(impl, "Peek", []))
+    for _ in range(k + 1):
+        evs.append(apply_label(impl, "Deq", []))
     return evs
 
 
@@ -204,6 +219,12 @@ def run(chk):
     rng = random.Random(chk.seed * 7919 + 12)
     n = 300 if quick else 3000
     traces = [random_history(rng, 60, via_node=(i % 10 == 0)) for i in range(n)]
+    for mx in (3, 6, 7, 8, 10):
+        for k in (mx - 1, mx, mx + 1):
+            for toggles in (1, 2, 3):
+                for how in ("fresh", "reuse"):
+                    traces.append(fill_toggle(toggles == 2, mx, k, toggles, how))
+    n = len(traces)
     verdicts, st = tlc.validate("TraceFrameQueue", "TraceFrameQueue", jsonable(traces))
     chk.add_stats(st, "trace validation of random histories")
     chk.traces += n
